@@ -84,10 +84,47 @@ def run_case(case):
             return {"src": src, "error": "generated source invalid: %s" % e}
         fns[which] = g[case["fname"]]
     plain = fns["plain"]
+    # observe the source text of the synthesised checking functions
+    import re
+    from jaxtyping import _decorator
+    headers = []
+    def spy_exec(code, scope):
+        if isinstance(code, str) and code.startswith("def "):
+            headers.append(code)
+        return exec(code, scope)
+    _decorator.exec = spy_exec
     try:
         wrapped_fn = jaxtyped(typechecker=tc)(fns["wrapped"])
     except BaseException as e:  # noqa
         return {"src": src, "decorate": "%s: %s" % (type(e).__name__, str(e)[:200])}
+    finally:
+        del _decorator.exec
+    def canon_header(h):
+        m = re.match(r"def [^(]*\((.*)\)(?:-> \w+)?:\n", h)
+        if not m:
+            return "?" + h[:60]
+        out = []
+        for piece in (m.group(1).split(", ") if m.group(1) else []):
+            if piece in ("/", "*"):
+                out.append(piece)
+            elif piece.startswith("**"):
+                out.append("**" + piece[2:].split(":")[0])
+            elif piece.startswith("*"):
+                out.append("*" + piece[1:].split(":")[0])
+            else:
+                out.append("P:%s:%d" % (piece.split(":")[0], 1 if "=" in piece else 0))
+        return ",".join(out)
+    def names_of(h):
+        m = re.match(r"def ([^(]*)\((.*)\)(?:-> \w+)?:\n", h)
+        res = []
+        for piece in (m.group(2).split(", ") if m and m.group(2) else []):
+            mm = re.match(r"\*{0,2}(\w+): (\w+)(?: = (\w+))?$", piece)
+            if mm:
+                res.append([mm.group(1), mm.group(2), mm.group(3)])
+        return [m.group(1) if m else "?", res]
+    out["header_names"] = [names_of(h) for h in headers]
+    out["headers"] = [canon_header(h) for h in headers]
+    out["gennames"] = [sorted(set(re.findall(r"\b(?:T|default|ret|fn)\d+\b", h))) for h in headers]
     out["decorate"] = "ok"
     desc = case["descriptor"]
     # descriptor kinds: put both into classes
